@@ -55,6 +55,20 @@ def _limit_restored_in(em, rep, rid, f):
     rep.minimum('recursion-limit acquire sites', len(acquires), 1)
     for a in acquires:
         key = '%s:%s' % (f.qname, norm(a.ast))
+        arg = a.ast.args[0] if a.ast.args else None
+        params = f.params[1:] if f.is_method else f.params
+        if arg is not None and not (is_name(arg) and arg.id in params) and not isinstance(arg, ast.Constant):
+            # the depth that is installed is the depth that was asked for
+            def plain(e, depth=0):
+                if is_name(e) and e.id in params:
+                    return True
+                if is_name(e) and depth < 3:
+                    defs = [s_ for s_ in own_nodes(f.node) if isinstance(s_, ast.Assign) and any(is_name(t, e.id) for t in s_.targets)]
+                    return bool(defs) and all(plain(d.value, depth + 1) for d in defs)
+                return False
+            if not plain(arg):
+                rep.violation(rid, key + ':requested', 'the limit that is installed is computed (%s), not the one the caller asked for: a search '
+                              'that fits within the requested depth can be cut short (or run deeper than allowed)' % norm(arg)[:50], f.loc(a.stmt))
         if len(nstores) != 1 or saves[0] not in dom[a]:
             rep.violation(rid, key, 'the saved limit %s is reassigned or not saved before the limit is changed' % saved, f.loc(a.stmt))
             continue
@@ -110,6 +124,21 @@ def rule_depth_error_handled(em, rep, rid):
         return
     if any(isinstance(x, ast.Raise) for s in caught.body for x in ast.walk(s)):
         rep.violation(rid, key, 'the handler for the depth error re-raises', f.loc(caught))
+        return
+    # the handler runs where the stack is exhausted and (when the limit is restored in a finally) still under the lowered
+    # limit: a call made there can raise the depth error a second time, and that one escapes
+    calls = [x for s in caught.body for x in ast.walk(s) if isinstance(x, ast.Call)]
+    cfg = em.cfg(f)
+    restores = [n for n in cfg.nodes if n.kind == 'call' and norm(n.ast.func).endswith('setrecursionlimit')]
+    restored_first = False
+    if calls and restores:
+        # fine when the limit is put back inside the handler before anything else is called
+        first = [x for x in ast.walk(caught.body[0]) if isinstance(x, ast.Call)] if caught.body else []
+        restored_first = bool(first) and norm(first[0].func).endswith('setrecursionlimit') and isinstance(caught.body[0], ast.Expr)
+    if calls and not restored_first:
+        rep.violation(rid, key + ':handler', 'the handler of the depth error calls %s while the stack is exhausted and the lowered limit is '
+                      'still in force: the call itself can exceed the limit, and then a RecursionError escapes evaluate_bounded instead '
+                      'of the prefix being returned' % norm(calls[0].func), f.loc(calls[0]))
         return
     rep.ok(rid, key, 'depth error caught by "except %s" without re-raise' % (norm(caught.type) if caught.type else ''), f.loc(caught))
 
